@@ -57,6 +57,7 @@ type World struct {
 	out         *Out
 	writes      map[*ssa.Function]map[*types.Var]bool // transitive field-write sets (lazy)
 	paramEnv    map[*ssa.Parameter][2]int64
+	lenParamEnv map[*ssa.Parameter][2]int64
 	fieldInv    map[*types.Var][3]int64
 	fieldLenInv map[*types.Var][3]int64
 	nilStored   map[*types.Var]bool
